@@ -136,6 +136,11 @@ def compare(model: A.Model, before_view: A.View, out_text: str):
                 break
     if before_view is not None and before_view.outside_tokens() != v.outside_tokens():
         fails.append(("wrapper-tokens-changed", {"before": before_view.outside_tokens()[:12], "after": v.outside_tokens()[:12]}))
+    if before_view is not None and len(before_view.let_nodes) == len(v.let_nodes) and not fails:
+        # no layer created or dropped: what follows each `in` (comments, blank line) belongs to "the other layers keep their text"
+        b, a = before_view.after_in_trivia(), v.after_in_trivia()
+        if b != a:
+            fails.append(("after-in-trivia-changed", {"before": [list(x) if x else x for x in b], "after": [list(x) if x else x for x in a], "out": out_text[:400]}))
     return fails, v
 
 
